@@ -225,8 +225,24 @@ func (c *Cluster) metaReplyLocked(e Exec, m *pb.ScanRequest) *Reply {
 			corrupt = []byte{}
 		}
 	}
+	var edit *MetaRowEdit
+	if len(c.MetaRowEdit) > 0 && len(sel) > 0 {
+		e := c.MetaRowEdit[0]
+		c.MetaRowEdit = c.MetaRowEdit[1:]
+		edit = &e
+	}
 	for _, r := range sel {
 		cells := metaRowCellsWith(r, corrupt)
+		if edit != nil {
+			for i := range cells {
+				if edit.RowKey != nil {
+					cells[i].Row = edit.RowKey
+				}
+				if edit.Server != nil && string(cells[i].Qualifier) == "server" {
+					cells[i].Value = edit.Server
+				}
+			}
+		}
 		if c.UseCellBlocks {
 			resp.CellsPerResult = append(resp.CellsPerResult, uint32(len(cells)))
 			resp.PartialFlagPerResult = append(resp.PartialFlagPerResult, false)
